@@ -61,7 +61,7 @@ def base_name(name):
     return name.split('[')[0]
 
 
-def variants(rng, accepts, unit, name, quick):
+def variants(rng, accepts, unit, name, quick, big=False):
     if accepts == 'all':
         fmts = ['csr', 'csc', 'coo', 'lil', 'dense']
     elif accepts == 'csr+dense':
@@ -77,7 +77,7 @@ def variants(rng, accepts, unit, name, quick):
                 continue
             out.append((f, dt))
     # the same integers / reals in narrower storage types (weights are 1..5: representable in each of them)
-    out += [('csr', 'float32'), ('csr', 'int32'), ('csr', 'uint8'), ('csr', 'int8')]
+    out += [('csr', 'float32'), ('csr', 'int32'), ('csr', 'uint8')] + ([('csr', 'uint8'), ('csr', 'uint8')] if big else [('csr', 'int8')])
     if unit or base_name(name) not in DISCRETE:
         out.append(('csr_unsorted', 'int'))
         out.append(('csr_unsorted', 'float'))
@@ -130,6 +130,12 @@ def run(ctx, scratch):
                     opts = cases.gnn_opts(rng, nr)
                 if name == 'get_dag':
                     opts['order'] = [rng.randint(-1, 3) for _ in range(nr)]
+                big = weighted and rng.random() < 0.15
+                if big:
+                    # the same graph with weights 64 / 128 / 192 (a function of the old weight, so symmetry is kept): equal values in
+                    # int64, float64 and uint8 storage, where sums of two or four of them are multiples of 256
+                    spec = dict(spec, coo=[[e[0], e[1], 64 * ((e[2] - 1) % 3 + 1)] for e in spec['coo']], dtype='int')
+                    fam += '_w64'
                 unit = all(e[2] == 1 for e in spec['coo'])
                 base = impl.call('registry', 'run', dict(name=name, m=spec, opts=opts, snapshot=True), timeout=60)
                 ctx.traces += 1
@@ -142,7 +148,7 @@ def run(ctx, scratch):
                 if 'hang' in base or 'crash' in base:
                     continue    # C17's business
                 _mod(ctx, name, base, spec, opts, 'csr/int')
-                for (fmt, dt) in variants(rng, d['accepts'], unit, name, quick):
+                for (fmt, dt) in variants(rng, d['accepts'], unit, name, quick, big=big):
                     s2 = copy.deepcopy(spec)
                     s2['fmt'] = fmt
                     s2['dtype'] = dt
